@@ -449,7 +449,7 @@ where
         }
         if self.write_to_bucket(i2, f, log) {
             self.n_elements += 1;
-            return Ok(false);
+            return Ok(true);
         }
 
         // cannot write to obvious buckets => relocate
